@@ -16,7 +16,9 @@ VARIABLES hist, finished
 gvars == <<sysvars, hist, finished>>
 
 StepOf(ln) ==
-  CASE ln.a = "tick" -> IF "in" \in DOMAIN ln THEN [a |-> "tick", p |-> ln.p, in |-> ln["in"]]
+  CASE ln.a = "tick" -> IF "wait" \in DOMAIN ln
+                        THEN [a |-> "tick", p |-> ln.p, in |-> ln["in"], wait |-> ln.wait, arr |-> ln.arr]
+                        ELSE IF "in" \in DOMAIN ln THEN [a |-> "tick", p |-> ln.p, in |-> ln["in"]]
                         ELSE [a |-> "tick", p |-> ln.p]          \* a spectator has no inputs
     [] ln.a \in {"poll", "ev", "kill"} -> [a |-> ln.a, p |-> ln.p]
     [] ln.a \in {"dlv", "drop", "dup"} -> [a |-> ln.a, from |-> ln.from, to |-> ln.to, k |-> ln.k]
